@@ -61,19 +61,8 @@ def exhaustive_dfs(ctx, shapes, pending, limit):
     return n, True
 
 
-def run(ctx):
-    pending = []
-    n_rand = 400 if ctx.quick else 20000
-    maxn = 8 if ctx.quick else 16
-    for _ in range(n_rand):
-        _one(ctx, gens.random_case(ctx.rng, maxn), None, pending)
-    # legal-but-adversarial random arrays for the percolation threshold (0.0, p itself, its float neighbours)
-    for _ in range(60 if ctx.quick else 2000):
-        case = gens.random_case(ctx.rng, 6)
-        if case["gen"] not in ("percolation", "dfs_percolation"):
-            case = dict(case, gen="percolation", kwargs={"p": ctx.rng.choice([0.0, 0, 1.0, 1, 0.4, 0.7])})
-        _one(ctx, case, None, pending, gens.edge_rands(ctx.rng, case["kwargs"].get("p", 0.4)))
-        ctx.count("adversarial_rand")
+def _special(ctx, pending):
+    """long thin grids and very long Wilson walks (scale- and budget-dependent behaviour)"""
     # long thin grids: sides beyond 127/128/255/256 (narrow integer types), every generator, start anywhere
     big = [(1, 200), (200, 1), (2, 150), (150, 2), (1, 300), (3, 130), (130, 3), (1, 129), (257, 1)]
     for rep in range(2 if ctx.quick else 12):
@@ -109,6 +98,22 @@ def run(ctx):
         bad = ORACLE(case, impl)
         if bad: ctx.violate(f"wilson {r}x{c} after a {len(sc)-3}-step walk bouncing between two unvisited cells: {bad}", dict(case=case, draws=impl["draws"], rands=[], edges=impl["edges"]))
         pending.append((case, impl, gens.request(case, impl)))
+
+
+def run(ctx):
+    pending = []
+    n_rand = 400 if ctx.quick else 20000
+    maxn = 8 if ctx.quick else 16
+    for _ in range(n_rand):
+        _one(ctx, gens.random_case(ctx.rng, maxn), None, pending)
+    # legal-but-adversarial random arrays for the percolation threshold (0.0, p itself, its float neighbours)
+    for _ in range(60 if ctx.quick else 2000):
+        case = gens.random_case(ctx.rng, 6)
+        if case["gen"] not in ("percolation", "dfs_percolation"):
+            case = dict(case, gen="percolation", kwargs={"p": ctx.rng.choice([0.0, 0, 1.0, 1, 0.4, 0.7])})
+        _one(ctx, case, None, pending, gens.edge_rands(ctx.rng, case["kwargs"].get("p", 0.4)))
+        ctx.count("adversarial_rand")
+    _special(ctx, pending)
     shapes = [(1, 2), (2, 2), (1, 3), (2, 3)] if ctx.quick else [(1, 2), (2, 2), (1, 3), (3, 1), (2, 3), (3, 2), (1, 5), (2, 4)]
     n_ex, complete = exhaustive_dfs(ctx, shapes, pending, 3000 if ctx.quick else 200000)
     ctx.extra["exhaustive_dfs_runs"] = n_ex; ctx.extra["exhaustive_dfs_complete"] = complete
@@ -121,6 +126,8 @@ def run(ctx):
 
 
 def search(ctx):
+    _special(ctx, [])
+    if ctx.violations: return
     for _ in range(3000 if ctx.quick else 50000):
         case = gens.random_case(ctx.rng, 10)
         try:
